@@ -22,7 +22,8 @@ PatA == IF Q THEN {<<"f","f","f","f">>, <<"-","f","s","-">>} ELSE {<<"f","f","f"
 PatB == IF Q THEN {<<"f","f","f","f">>, <<"f","-","s","f">>, <<"-","-","f","s">>} ELSE {<<"f","f","f","f">>, <<"f","-","s","f">>, <<"-","-","f","s">>, <<"s","f","-","-">>}
 PatC == IF Q THEN {<<"f","f","f","f">>, <<"s","-","f","f">>} ELSE {<<"f","f","f","f">>, <<"s","-","f","f">>, <<"-","f","-","s">>}
 NStepsSet == IF Q THEN {4, 12} ELSE {4, 12, 23}
-Datasets == {"one2one", "absent", "many", "dupone", "incl"}
+\* twonames: two many-side series that differ in the metric name only (selected by a regex on __name__)
+Datasets == {"one2one", "absent", "many", "dupone", "incl", "twonames"}
 
 \* label sets: first the lhs series (metric l), then the rhs series (metric r)
 LOf(ds) ==
@@ -31,12 +32,14 @@ LOf(ds) ==
     [] ds = "many"    -> << << <<"__name__","l">>, <<"a","x">>, <<"b","1">> >>, << <<"__name__","l">>, <<"a","x">>, <<"b","2">> >> >>
     [] ds = "dupone"  -> << << <<"__name__","l">>, <<"a","x">>, <<"b","1">> >>, << <<"__name__","l">>, <<"a","y">>, <<"b","1">> >> >>
     [] ds = "incl"    -> << << <<"__name__","l">>, <<"a","x">>, <<"b","1">>, <<"c","own">> >>, << <<"__name__","l">>, <<"a","x">>, <<"b","2">> >> >>
+    [] ds = "twonames" -> << << <<"__name__","l">>, <<"a","x">>, <<"b","1">> >>, << <<"__name__","l2">>, <<"a","x">>, <<"b","1">> >> >>
 ROf(ds) ==
   CASE ds = "one2one" -> << << <<"__name__","r">>, <<"a","x">>, <<"b","1">> >>, << <<"__name__","r">>, <<"a","y">>, <<"b","1">> >> >>
     [] ds = "absent"  -> << << <<"__name__","r">>, <<"a","x">> >>, << <<"__name__","r">>, <<"b","2">> >> >>
     [] ds = "many"    -> << << <<"__name__","r">>, <<"a","x">>, <<"c","p">> >>, << <<"__name__","r">>, <<"a","y">>, <<"c","q">> >> >>
     [] ds = "dupone"  -> << << <<"__name__","r">>, <<"a","x">>, <<"c","p">> >>, << <<"__name__","r">>, <<"a","x">>, <<"c","q">> >> >>
     [] ds = "incl"    -> << << <<"__name__","r">>, <<"a","x">>, <<"c","p">>, <<"A","up">> >>, << <<"__name__","r">>, <<"a","y">>, <<"c","q">> >> >>
+    [] ds = "twonames" -> << << <<"__name__","r">>, <<"a","x">>, <<"c","p">> >>, << <<"__name__","r">>, <<"a","y">>, <<"c","q">> >> >>
 
 Ops == <<"+", "-", "*", "/", "%", "^", "==", "!=", "<", ">", "<=", ">=", "atan2", "+", "==", ">", "*">>
 \* matching: [on, ml]
@@ -66,7 +69,7 @@ Data(x) == [j \in 1..2 |-> Series(LOf(x.ds)[j], SmpOf(x, "l", j))] \o [j \in 1..
            \o <<ParamSeries(x)>>
 
 PH(p) == FoldSet(LAMBDA u, acc : acc + (IF p[u] = "-" THEN 0 ELSE IF p[u] = "f" THEN u ELSE 5 * u), 0, 1..Period)
-Hash(x) == (x.n * 7 + (CASE x.ds = "one2one" -> 1 [] x.ds = "absent" -> 2 [] x.ds = "many" -> 3 [] x.ds = "dupone" -> 4 [] OTHER -> 5) * 11
+Hash(x) == (x.n * 7 + (CASE x.ds = "one2one" -> 1 [] x.ds = "absent" -> 2 [] x.ds = "many" -> 3 [] x.ds = "dupone" -> 4 [] x.ds = "twonames" -> 6 [] OTHER -> 5) * 11
             + FoldSet(LAMBDA u, acc : acc + (IF x.p1[u] = "-" THEN 0 ELSE IF x.p1[u] = "f" THEN u + 1 ELSE 5 * (u + 1)), 0, 0..(Period - 1)) * 17
             + PH(x.pa) * 19 + PH(x.pb) * 23 + PH(x.pc) * 29)
 H(x) == Hash(x) \div Mod
@@ -77,6 +80,7 @@ ShapeOf(x) == Shapes[((H(x) \div 11) % Len(Shapes)) + 1]
 BoolOf(x)  == IsCmpOp(OpOf(x)) /\ ((H(x) \div 13) % 3 = 0 \/ ShapeOf(x) \in {"ss", "st"})
 
 LSel == <<Sel(<<Metric("l")>>)>>
+LSelOf(x) == IF x.ds = "twonames" THEN <<Sel(<<Re("__name__", "l|l2", <<"l", "l2">>)>>)>> ELSE LSel
 RSel == <<Sel(<<Metric("r")>>)>>
 PSca == <<Sel(<<Metric("p")>>), Fn("scalar", <<1>>)>>
 VV(x, lp, rp) == LET m == MatchOf(x) c == CardOf(x) IN
@@ -84,23 +88,23 @@ VV(x, lp, rp) == LET m == MatchOf(x) c == CardOf(x) IN
 SB(x, lp, rp) == Join(lp, rp, LAMBDA a, b : BinM(OpOf(x), a, b, BoolOf(x), "1:1", FALSE, <<>>, <<>>))
 PlanOf(x) ==
   LET sh == ShapeOf(x) IN
-  CASE sh = "vv"     -> VV(x, LSel, RSel)
-    [] sh = "vs"     -> SB(x, LSel, <<Num(5)>>)
+  CASE sh = "vv"     -> VV(x, LSelOf(x), RSel)
+    [] sh = "vs"     -> SB(x, LSelOf(x), <<Num(5)>>)
     [] sh = "sv"     -> SB(x, <<Num(5)>>, RSel)
-    [] sh = "vss"    -> SB(x, LSel, PSca)
+    [] sh = "vss"    -> SB(x, LSelOf(x), PSca)
     [] sh = "ssv"    -> SB(x, PSca, RSel)
     [] sh = "ss"     -> SB(x, <<Num(2)>>, <<Num(3)>>)
     [] sh = "st"     -> SB(x, <<Fn("time", <<>>)>>, <<Num(3)>>)
-    [] sh = "vvagg"  -> VV(x, Over(LSel, LAMBDA c : Agg("sum", TRUE, <<"a", "b">>, <<c>>)), Over(RSel, LAMBDA c : Agg("max", FALSE, <<"A">>, <<c>>)))
-    [] sh = "vvtopk" -> VV(x, <<Sel(<<Metric("l")>>), Num(1), Agg("topk", TRUE, <<"a">>, <<2, 1>>)>>, RSel)
-    [] sh = "vvnest" -> VV(x, Join(LSel, <<Num(1)>>, LAMBDA a, b : Bin("*", a, b)), RSel)
+    [] sh = "vvagg"  -> VV(x, Over(LSelOf(x), LAMBDA c : Agg("sum", TRUE, <<"a", "b">>, <<c>>)), Over(RSel, LAMBDA c : Agg("max", FALSE, <<"A">>, <<c>>)))
+    [] sh = "vvtopk" -> VV(x, Join(<<Num(1)>>, LSelOf(x), LAMBDA a, b : Agg("topk", TRUE, <<"a">>, <<a, b>>)), RSel)
+    [] sh = "vvnest" -> VV(x, Join(LSelOf(x), <<Num(1)>>, LAMBDA a, b : Bin("*", a, b)), RSel)
 
 ScnOf(x) == Scn("bin", "C05", TickMs, Data(x), PlanOf(x), 0, x.n - 1, 1, 1, 0)
 
 \* model-level law, checked on every enumerated scenario for `l + on(a) group_left r` and `l + ignoring(b,c) r`:
 \* every output pairs exactly one lhs element with one rhs element of the same signature (values add up),
 \* and the step fails iff the "one" side has two elements with one signature (or a one-to-one match is ambiguous)
-BinLaw ==
+BinLaw == g.ds = "twonames" \/
   LET sc == [ScnOf(g) EXCEPT !.plan = Join(LSel, RSel, LAMBDA a, b : BinM("+", a, b, FALSE, "N:1", TRUE, <<"a">>, <<>>))]
       gr == Grid(sc) IN
   \A i \in 1..Len(gr) :
